@@ -32,11 +32,18 @@ func main() {
 func cmdList(args []string) {
 	fs := flag.NewFlagSet("list", flag.ExitOnError)
 	repo := fs.String("repo", "/repo", "repository root")
+	impl := fs.Bool("implements", false, "list the (interface method contract, implementation) pairs and how each is checked")
 	fs.Parse(args)
 	e, err := loadEngine(*repo)
 	if err != nil {
 		fmt.Fprintln(os.Stderr, err)
 		os.Exit(2)
+	}
+	if *impl {
+		for _, p := range e.implPairs {
+			fmt.Printf("%s <- %s  frame-refinement=%v body=%q unchecked=%q\n", p.Iface, p.Impl, p.FrameRefinement, p.BodyKey, p.Unchecked)
+		}
+		return
 	}
 	keys := sortedKeys(e.funcs)
 	for _, k := range keys {
@@ -86,6 +93,14 @@ func cmdVerify(args []string) {
 		for _, k := range sortedKeys(e.funcSpecs) {
 			if sp := e.funcSpecs[k]; sp.IsFunctional() && !sp.Trusted && e.funcs[k] != nil {
 				keys = append(keys, k)
+			}
+		}
+	}
+	if len(keys) == 1 && keys[0] == "implements" {
+		keys = nil
+		for _, p := range e.implPairs {
+			if p.BodyKey != "" {
+				keys = append(keys, p.BodyKey)
 			}
 		}
 	}
